@@ -409,7 +409,18 @@ func accessPath(v ssa.Value, getters map[string]string, depth int) string {
 		return x.Name()
 	case *ssa.Extract, *ssa.Phi, *ssa.Lookup, *ssa.TypeAssert, *ssa.Next:
 		return v.Name()
-	case *ssa.Alloc, *ssa.MakeClosure:
+	case *ssa.Alloc:
+		// a local variable assigned exactly once is as good as an SSA value
+		n := 0
+		for _, r := range *x.Referrers() {
+			if st, ok := r.(*ssa.Store); ok && st.Addr == ssa.Value(x) {
+				n++
+			}
+		}
+		if n == 1 && x.Comment != "" {
+			return "var:" + x.Comment
+		}
+	case *ssa.MakeClosure:
 	}
 	return ""
 }
